@@ -102,7 +102,15 @@ def snapshot(obj):
     out = {}
 
     def visit(o, prefix, depth):
-        for name, v in list(vars(o).items()):
+        items = list(vars(o).items())
+        # class-level data attributes of package classes are state shared by all instances
+        for k in type(o).__mro__:
+            if k.__module__.split('.')[0] == 'seismic_zfp':
+                for name, v in vars(k).items():
+                    if not name.startswith('__') and not callable(v) and not isinstance(v, (staticmethod, classmethod, property)) \
+                            and name not in vars(o) and not hasattr(v, 'cache_info'):
+                        items.append((name, v))
+        for name, v in items:
             path = prefix + name
             out[path] = (('id', id(v)), ('bind', id(o), name))
             if hasattr(v, 'cache_info'):
@@ -229,7 +237,7 @@ def reader_calls(M, out_path):
 
 def call_method(obj, name, args):
     try:
-        return ('ok', getattr(obj, name)(*args))
+        return ('ok', quiet(getattr(obj, name), *args))
     except Exception as e:
         return ('exc', exc_class(e))
 
@@ -357,7 +365,7 @@ def part_a(files, census):
                 R.count('xarray not importable')
         # converters from SEG-Y
         for rep in range(1):
-            c = SegyConverter(sgy)
+            c = quiet(SegyConverter, sgy)
             out = os.path.join(d, 'conv.sgz')
             for kw in (dict(bits_per_voxel=8), dict(bits_per_voxel=4, header_detection='thorough'), dict(bits_per_voxel=8, blockshape=(4, 4, -1) if not M['is2d'] else (1, 4, -1))):
                 s0 = snapshot(c)
@@ -487,7 +495,7 @@ def part_b(files):
         segy_ops = [('run', ('@OUT',), dict(bits_per_voxel=8), True), ('run', ('@OUT',), dict(bits_per_voxel=4, header_detection='thorough'), True),
                     ('run', ('@OUT',), dict(bits_per_voxel=8, blockshape=bs2, header_detection='exhaustive'), True),
                     ('run', ('@OUT',), dict(bits_per_voxel=16, header_detection='strip'), True)]
-        pools['SegyConverter'] = (lambda: SegyConverter(sgy), segy_ops, ['run'])
+        pools['SegyConverter'] = (lambda: quiet(SegyConverter, sgy), segy_ops, ['run'])
         for cname, (make, ops, special) in pools.items():
             for si in range(nseq if cname != 'SegyConverter' else max(2, nseq // 3)):
                 n = rng.randrange(4, 11)
@@ -502,6 +510,8 @@ def part_b(files):
                         got = run_op(obj, op, outp)
                         w = want[i]
                         ok = got[0] == w[0] and (same(got[1], w[1]) if got[0] == 'ok' else got[1] == w[1])
+                        if op[0] == 'read_variant_headers' and not M['structured']:
+                            ok = True       # the public sticky mode: documented AssertionError after a call in the other mode (C15)
                         R.case(f'b|{label}|{cname}|{si}|{i}', nontrivial=(i > 0 and got[0] in ('ok', 'file')),
                                sample={'class': cname, 'file': label, 'position': i, 'call': op[0]})
                         R.count('b:' + op[0])
